@@ -43,7 +43,7 @@ FLOORS = {'*': {**{f'{k}:{w}': 10 for k in ('openapi', 'openapi30', 'openrpc') f
                 'context:not-first': 20, 'context:positional': 10, 'subsets-dispatched': 3000, 'accepted': 300, 'refused': 1000,
                 'methods': 100, 'twin-registration': 30, 'exclusion:by-name': 30, 'exclusion:default-none': 30, 'exclusion:by-annotation': 30,
                 'validator:base': 100, 'validator:pydantic': 30, 'validator:pydantic:extra-ignore': 30, 'validator:pydantic:extra-allow:as-is': 30,
-                'view:context-name-equals-a-parameter-name': 30, 'style:wrapped': 30, 'style:view-static': 30, 'style:view-class': 30, 'style:view-static-inherited': 30, 'style:view-class-inherited': 30, 'signature:variadic': 30, 'signature:nullable': 30, 'signature:field-default': 30,
+                'view:context-name-equals-a-parameter-name': 30, 'style:wrapped': 30, 'style:view-static': 30, 'style:view-class': 30, 'style:view-static-inherited': 30, 'style:view-class-inherited': 30, 'signature:variadic': 30, 'signature:nullable': 30, 'signature:field-default': 30, 'signature:factory-default': 100, 'signature:via-copy': 100,
                 'signature:extractor:serialization-defaults-required': 100}}
 
 
@@ -78,6 +78,10 @@ def render(params, ctx_at, ctx_name, skip, as_view, first='self', lead=None, fna
             # a REQUIRED parameter described through pydantic.Field: the python default is a FieldInfo that carries no default value
             parts.append(f"{name}: {ann} = pydantic.Field(description='described', ge=0)")
             continue          # (every later parameter has a python default too: the signature stays legal)
+        if dflt and extras.get('factory-default'):
+            # a default the JSON schema cannot show (it is produced by a factory): the parameter may be omitted all the same
+            parts.append(f"{name}: {ann} = pydantic.Field(default_factory=int)")
+            continue
         parts.append(name + (f": {ann} = 0" if dflt else f': {ann}'))
     if extras.get('variadic') and not star:
         parts.append('*rest')
@@ -196,7 +200,14 @@ def run_method(ctx, params, ctx_at, positional, skip, style, validator='base', e
         else:
             exec(compile(src, '<vmon_c17_programs>', 'exec', dont_inherit=True), ns)
             validator.validate(ns['f'])
-            method = pjrpc.server.Method(ns['f'], 'f', context=ctx_name if ctx_at is not None else None, positional=positional)
+            if extras.get('via-copy'):
+                # the Method object is derived from another one through the public copy(): name and context designation replaced
+                proto = pjrpc.server.Method(ns['f'], 'proto', context=None if ctx_at is not None else None)
+                if ctx_at is None and params:
+                    proto = pjrpc.server.Method(ns['f'], 'proto', context=params[0][0])      # the prototype designated a context, the copy does not
+                method = proto.copy(name='f', context=ctx_name if ctx_at is not None else None, positional=positional)
+            else:
+                method = pjrpc.server.Method(ns['f'], 'f', context=ctx_name if ctx_at is not None else None, positional=positional)
         disp = pjrpc.server.Dispatcher()
         disp.add_methods(method)
     except Exception as e:
@@ -397,7 +408,8 @@ def gen(ctx):
                     if not full and k % 3 and not (ctx_at not in (None, 0)):
                         continue
                     ex = {'variadic': (k // 7) % 4 == 0 and style in ('def', 'view'), 'nullable': k % 4 == 1,
-                          'field-default': (k // 3) % 3 == 0, 'extractor:serialization-defaults-required': (k // 5) % 4 == 0}
+                          'field-default': (k // 3) % 3 == 0, 'extractor:serialization-defaults-required': (k // 5) % 4 == 0,
+                          'factory-default': (k // 2) % 5 == 0, 'via-copy': (k // 11) % 2 == 0 and style == 'def'}
                     yield 'method', dict(params=ps, ctx_at=ctx_at, positional=positional, skip=skip, style=style,
                                          validator=VALIDATORS[(k // 2) % 4] if k % 3 == 0 else 'base', extras=ex)
 
